@@ -66,10 +66,20 @@ func overlapsWrite(ts1, ts2, a uint64, ws []rec) bool {
 	return false
 }
 
+// halves: both halves of a block are uniform, with small values
+func halves(b []byte) (byte, byte, bool) {
+	if len(b) != BS {
+		return 0, 0, false
+	}
+	h1, ok1 := uniform(b[:BS/2])
+	h2, ok2 := uniform(b[BS/2:])
+	return h1, h2, ok1 && ok2 && h1 <= 3 && h2 <= 3
+}
+
 func main() {
 	seed := flag.Uint64("seed", 1, "seed")
 	nh := flag.Int("n", 100, "histories")
-	workload := flag.String("workload", "mem", "mem | file-disjoint | file-handoff | file-shared | file-writers")
+	workload := flag.String("workload", "mem", "mem | mem-halves | file-disjoint | file-handoff | file-shared | file-writers")
 	maxThreads := flag.Int("threads", 5, "max goroutines")
 	maxOps := flag.Int("ops", 5, "max ops per goroutine")
 	sync_ := flag.Bool("sync", false, "spin barrier before every call so that calls of different goroutines overlap")
@@ -100,7 +110,7 @@ func main() {
 		}
 		var d disk.Disk
 		switch *workload {
-		case "mem":
+		case "mem", "mem-halves":
 			d = disk.NewMemDisk(n)
 		default:
 			p := filepath.Join(dir, "stress.img")
@@ -157,6 +167,14 @@ func main() {
 					}
 					plan[i] = rec{kind: 0, a: a, x: x}
 					blocks[i] = bytes.Repeat([]byte{x}, BS)
+					if *workload == "mem-halves" {
+						// blocks of two uniform halves drawn from {1,2,3}: blocks written concurrently
+						// share prefixes and suffixes; the value is named 16*first + second
+						h1, h2 := byte(1+tr.Intn(3)), byte(1+tr.Intn(3))
+						plan[i].x = 16*h1 + h2
+						copy(blocks[i][:BS/2], bytes.Repeat([]byte{h1}, BS/2))
+						copy(blocks[i][BS/2:], bytes.Repeat([]byte{h2}, BS/2))
+					}
 				case k < 7:
 					plan[i] = rec{kind: 1, a: a}
 				case k < 9:
@@ -215,8 +233,10 @@ func main() {
 					case p.kind == 3:
 						p.resp = fmt.Sprintf("N %d", sz)
 					default:
-						if x, ok := uniform(res); ok && len(res) == BS {
+						if x, ok := uniform(res); ok && len(res) == BS && *workload != "mem-halves" {
 							p.resp = fmt.Sprintf("B %d", x)
+						} else if h1, h2, ok := halves(res); ok && *workload == "mem-halves" {
+							p.resp = fmt.Sprintf("B %d", 16*int(h1)+int(h2)) // 0 for the initial block
 						} else {
 							p.resp = "TORN " + enc.RLE(res)
 						}
